@@ -89,7 +89,7 @@ func main() {
 			if ev.Tracing() {
 				tr = ev.Trace
 			}
-			if msg, rp := avlh.Churn(ev.Pick(r, 60000, 600000), 97, dups, true, tr); msg != "" {
+			if msg, rp := avlh.Churn(ev.Pick(r, 140000, 600000), 97, dups, true, tr); msg != "" {
 				r.Report(ev.Violation{Sig: "family|churn", Msg: "(" + kind + " tree) " + msg, Replay: rp})
 			}
 		}
@@ -108,7 +108,7 @@ func main() {
 		r.Set("deep_tree_nodes", nodes)
 		r.Set("deep_tree_calls", calls)
 	}
-	r.Set("churn_family_operations", 2*ev.Pick(r, 60000, 600000))
+	r.Set("churn_family_operations", 2*ev.Pick(r, 140000, 600000))
 	r.Set("states", states)
 	r.Set("transitions", trans)
 	r.Set("traces_validated_against_impl", trans)
